@@ -92,7 +92,7 @@ InputOK(s, q, in) == \E c \in Spendable(s, q) : c.t = in.t /\ c.n = in.n /\ c.v 
 \* explicit input list (q.nexplicit > 0, q.explicit: set of <<t, n>>): the transaction spends exactly the listed outpoints;
 \* they are subject to the same rules (distinct, unspent, of this wallet) - only min_confirms is documented as ignored
 OutPts(x) == {<<x.ins[i].t, x.ins[i].n>> : i \in 1..Len(x.ins)}
-TxWhyG(s, q, x, InOK(_)) ==
+TxWhyG(s, q, x, InOK(_), maxtol) ==
     IF Len(x.ins) = 0 THEN "no-inputs"
     ELSE IF ~InsDistinct(x) THEN "input-used-twice"
     ELSE IF q.nexplicit > 0 /\ OutPts(x) # q.explicit THEN "inputs-differ-from-the-explicit-list"
@@ -110,16 +110,23 @@ TxWhyG(s, q, x, InOK(_)) ==
     \* fee rate limits (per 1000 vbytes), with 3% tolerance for the difference between estimated and final size;
     \* q.feemin / q.feemax = 0: limit not checked (value outside this model's integer range)
     ELSE IF x.vsize > 0 /\ q.feemin > 0 /\ x.fee < ((q.feemin \div 1000) * x.vsize * 97 + 99) \div 100 THEN "fee-rate-below-network-minimum"
-    ELSE IF x.vsize > 0 /\ q.feemax > 0 /\ x.fee > ((q.feemax \div 1000) * x.vsize * 103) \div 100 THEN "fee-rate-above-network-maximum"
+    ELSE IF x.vsize > 0 /\ q.feemax > 0 /\ x.fee > ((q.feemax \div 1000) * x.vsize * maxtol) \div 100 THEN "fee-rate-above-network-maximum"
     ELSE "ok"
-TxWhy(s, q, x) == TxWhyG(s, q, x, LAMBDA in : InputOK(s, q, in))
-\* named deviation "explicit-input-already-spent": an explicitly listed outpoint is taken without looking at the ledger's
-\* spent flag (an output of this wallet with that value, spent by a stored transaction of this wallet or by a report)
+TxWhy(s, q, x) == TxWhyG(s, q, x, LAMBDA in : InputOK(s, q, in), 103)
+\* named deviations
+\*   "explicit-input-already-spent": an explicitly listed outpoint is taken without looking at the ledger's spent flag (an
+\*      output of this wallet with that value, spent by a stored transaction of this wallet or by a report)
+\*   "fee-limit-on-estimated-size": the upper fee-rate limit is enforced on the size estimated before signing, which
+\*      for witness inputs is up to a third larger than the final virtual size - a fee up to 35% above the limit passes
 KnownCoin(s, in) == \E c \in s.coins : c.t = in.t /\ c.n = in.n /\ c.v = in.v
 TxDev(s, q, x) ==
-    IF q.nexplicit > 0 /\ TxWhy(s, q, x) = "input-not-an-unspent-confirmed-output-of-this-wallet"
-       /\ TxWhyG(s, q, x, LAMBDA in : KnownCoin(s, in)) = "ok" THEN "explicit-input-already-spent" ELSE ""
-\* funds are insufficient when even all spendable outputs cannot pay the recipients (plus an explicit fee)
+    LET strictIn(in) == InputOK(s, q, in)
+        knownIn(in) == KnownCoin(s, in) IN
+    IF TxWhy(s, q, x) = "ok" THEN ""
+    ELSE IF q.nexplicit > 0 /\ TxWhyG(s, q, x, knownIn, 103) = "ok" THEN "explicit-input-already-spent"
+    ELSE IF TxWhyG(s, q, x, strictIn, 135) = "ok" THEN "fee-limit-on-estimated-size"
+    ELSE IF q.nexplicit > 0 /\ TxWhyG(s, q, x, knownIn, 135) = "ok" THEN "explicit-input-already-spent+fee-limit-on-estimated-size"
+    ELSE ""
 \* (with an explicit input list: the listed outputs; whether they may be spent at all is judged by TxWhy)
 Pool(s, q) == IF q.nexplicit > 0 THEN {c \in s.coins : <<c.t, c.n>> \in q.explicit} ELSE Spendable(s, q)
 Insufficient(s, q) == SumV(Pool(s, q)) < ReqTotal(q) + (IF q.fee > 0 THEN q.fee ELSE 0)
